@@ -1,68 +1,121 @@
 (* C15: case type (event script + what the real server answered), correspondence and the property evaluated on the
    server's own answers. *)
 From Coq Require Import Bool.
-From Virel Require Import Lib.Config Lib.CheckLib Lib.AMap Model.Stratum.
+From Virel Require Import Lib.Config Lib.CheckLib Lib.AMap Lib.U64 Model.Stratum.
 Open Scope bool_scope.
 Open Scope N_scope.
 
-(* what the harness observed for one event: the outcome in the model's vocabulary + whether the submitted nonce
-   solves the blob the miner was given (proof of work of the real code on that blob, at the template's difficulty);
-   GRefusedByChain = proof of work passed but the chain refused the block (duplicate, ...): the stratum model says
-   OFound there, the chain's answer is not its subject. *)
-Inductive gobs := GO (o : outcome) (solves : bool) | GRefusedByChain.
+(* what the harness computed with the consensus proof-of-work function (randomvirel.PowHash keyed with GetSeed() of
+   the blob that is hashed) for a submission: the blob the miner hashed - the blob it was sent, or the merge-mining
+   blob it submits, completed with its nonce and extra nonce -, the seed number of that blob (block.GetSeedhashId of
+   its timestamp) and the 128-bit value.  None: nothing was hashed (not a submission, or a configuration where the
+   target is trivial); the value is then taken to be the largest one, which meets a target only if every value does. *)
+Record powobs := mkpow { pw_blob : blob; pw_seed : N; pw_val : N }.
+
+(* what the harness observed for one event: the outcome in the model's vocabulary + the proof-of-work observation;
+   GRefusedByChain = proof of work passed but the chain refused the block (duplicate, timestamp too far ahead, ...):
+   the stratum model says OFound there, the chain's answer is not its subject. *)
+Inductive gobs := GO (o : outcome) (h : option powobs) | GRefusedByChain (h : option powobs).
 
 Record c15_case := mkcase { cs_steps : list (event * gobs) }.
+
+Definition gobs_pow (g : gobs) : option powobs := match g with GO _ h => h | GRefusedByChain h => h end.
+Definition worst_val : N := two128 - 1.
+Definition obs_val (h : option powobs) : N := match h with Some p => pw_val p | None => worst_val end.
 
 Definition outcome_eqb (a b : outcome) : bool :=
   match a, b with
   | ONone, ONone | OLoginRefused, OLoginRefused | OUnknownJob, OUnknownJob | OMalformed, OMalformed
   | OBlobRefused, OBlobRefused | ORejectedLowDiff, ORejectedLowDiff | OPanic, OPanic => true
-  | OJob j b, OJob j' b' => (j =? j') && blob_eqb b b'
+  | OJob j b t, OJob j' b' t' => (j =? j') && blob_eqb b b' && (t =? t')
   | OFound r b, OFound r' b' => (r =? r') && blob_eqb b b'
   | _, _ => false
   end.
 
 (* ---- correspondence: the model, run on the script, answers what the server answered ----
-   pow_ok: the cases are produced under the unittest configuration where the difficulty is 1 and every hash is a
-   solution; the harness checks that with the real ValidPowHash and reports solves = true; a submission the server
-   rejected for low difficulty therefore disagrees with the model. *)
-Definition pow_true (b : blob) : bool := true.
+   The model's proof-of-work function is the harness' observation: the value it computed for (seed, blob); any other
+   (seed, blob) the model asks for - the model keys the hash with another seed or judges another blob than the one
+   the miner hashed - gets the largest value, which fails every difficulty above 1.  Where nothing was hashed
+   (unittest: difficulty 1, every value is a solution) every blob gets the largest value, which meets difficulty 1. *)
+Definition pow_oracle (h : option powobs) (seed : N) (b : blob) : N :=
+  match h with
+  | Some p => if (seed =? pw_seed p) && blob_eqb b (pw_blob p) then pw_val p else worst_val
+  | None => worst_val
+  end.
 
 Fixpoint corr_steps (cfg : config) (s : server) (l : list (event * gobs)) : bool :=
   match l with
   | [] => true
   | (e, g) :: r =>
-      let '(s1, o) := step cfg pow_true s e in
+      let '(s1, o) := step cfg (pow_oracle (gobs_pow g)) s e in
       (match g with
        | GO go _ => outcome_eqb o go
-       | GRefusedByChain => match o with OFound _ _ => true | _ => false end
+       | GRefusedByChain _ => match o with OFound _ _ => true | _ => false end
        end) && corr_steps cfg s1 r
   end.
 
 Definition c15_corr (cfg : config) (c : c15_case) : bool := corr_steps cfg init_server (cs_steps c).
 
 (* ---- the property, on the server's answers only ----
-   The miner's view (login address, jobs sent; Model/Stratum.v: mview, view_step, advertised) is rebuilt from the
-   events and the server's answers; the model's state is not consulted. *)
+   The miner's view (login address, jobs sent with their targets; Model/Stratum.v: mview, view_step, advertised) is
+   rebuilt from the events and the server's answers, together with the minimum difficulty of every template content
+   the server announced; the model's state is not consulted. *)
 
 Definition opt_hidv_eqb (a b : option hidv) : bool :=
   match a, b with Some x, Some y => hidv_eqb x y | None, None => true | _, _ => false end.
 
+Record pstate := mkps { ps_views : list (N * mview); ps_tdiff : list (N * N) (* template content -> its minimum difficulty *) }.
+
+(* the target sent with a job is the target of the minimum difficulty of the template that very job was made from
+   (the template is named by the job's own blob) *)
+Definition target_code (cfg : config) (ps : pstate) (b : blob) (t : N) : N :=
+  match own_entry cfg b with
+  | Some (Own tpl _) =>
+      match nget (ps_tdiff ps) tpl with
+      | Some md => match job_target md with Some t' => if t =? t' then 0 else 10 | None => 10 end
+      | None => 11
+      end
+  | _ => 11
+  end.
+
+(* the blob a miner hashes for a submission *)
+Definition hashed_blob (sent : blob) (n : N) (x : extra_in) (mb : mblob_in) : option blob :=
+  match mb with
+  | MNone => Some (miner_blob sent n x)
+  | MBlob m => Some (miner_blob m n x)
+  | MBad => None
+  end.
+
+(* the harness' proof-of-work observation is about that blob and about the seed of that blob's own timestamp *)
+Definition powobs_ok (cfg : config) (h : option powobs) (hb : option blob) : bool :=
+  match h, hb with
+  | Some p, Some b => blob_eqb (pw_blob p) b && (pw_seed p =? blob_seed cfg b)
+  | Some _, None => false
+  | None, _ => true
+  end.
+
 (* one step; returns 0 or the code of the sentence of C15 that fails:
    1 a job does not describe a block paying the login address
    2 a job within the advertised history is answered "unknown job"
-   3 a nonce solving the sent blob is rejected for failing proof of work
-   4 the submission was judged against another blob than the one sent with that job id
+   3 a nonce is rejected for failing proof of work although the value of the blob the miner hashed, under the consensus
+     proof-of-work function keyed with that blob's own seed, meets the target that was sent with the job
+   4 the submission was judged against another blob than the one sent with that job id / the merge-mining blob submitted
    5 the block produced pays another address than the login address
    7 the server crashed while handling the event (every job of every miner is gone)
-   9 a job was sent to a connection that is not logged in *)
-Definition prop_code (cfg : config) (vs : list (N * mview)) (e : event) (g : gobs) : N :=
+   9 a job was sent to a connection that is not logged in
+   10 the target sent with a job is not the target of the minimum difficulty of the job's own template
+   11 a job names a template content the server never announced
+   12 outside the masterchain the minimum difficulty passed with a template is not the template's difficulty
+   13 the proof-of-work observation of the harness is not about the blob the miner hashed / that blob's seed *)
+Definition prop_code (cfg : config) (ps : pstate) (e : event) (g : gobs) : N :=
+  let vs := ps_views ps in
   match e, g with
   | _, GO OPanic _ => 7
-  | ELogin cid addr _, GO (OJob j b) _ => if pays cfg b addr then 0 else 1
-  | ENotify cid _ _ _, GO (OJob j b) _ =>
+  | ETemplate _ _ _ _ d md, _ => if is_masterchain cfg || (d =? md) then 0 else 12
+  | ELogin cid addr _, GO (OJob j b t) _ => first_fail [(1, pays cfg b addr); (target_code cfg ps b t, target_code cfg ps b t =? 0)]
+  | ENotify cid _ _ _, GO (OJob j b t) _ =>
       match nget vs cid with
-      | Some v => if pays cfg b (mv_addr v) then 0 else 1
+      | Some v => first_fail [(1, pays cfg b (mv_addr v)); (target_code cfg ps b t, target_code cfg ps b t =? 0)]
       | None => 9
       end
   | ESubmit cid jid (NBytes len n) x mb, g =>
@@ -71,15 +124,22 @@ Definition prop_code (cfg : config) (vs : list (N * mview)) (e : event) (g : gob
           if len <? 4 then 0 else
           match advertised cfg v jid with
           | None => 0                                     (* not a job of this miner's advertised history *)
-          | Some sent =>
+          | Some a =>
+              let sent := a_sent a in
+              if negb (powobs_ok cfg (gobs_pow g) (hashed_blob sent n x mb)) then 13 else
               match g with
               | GO OUnknownJob _ => 2
-              | GO ORejectedLowDiff solves => if solves then 3 else 0
+              | GO ORejectedLowDiff h => if meets_target (obs_val h) (a_target a) then 3 else 0
               | GO (OFound r judged) _ =>
                   first_fail [
                     (4, match mb with
                         | MNone => blob_eqb judged (miner_blob sent n x)
-                        | _ => opt_hidv_eqb (own_entry cfg judged) (own_entry cfg sent)
+                        | MBlob m =>
+                            (* the block is the job's own; a merge-mining blob that names the job's own hashing id
+                               is reconstructed exactly (with the miner's nonce and extra nonce) *)
+                            opt_hidv_eqb (own_entry cfg judged) (own_entry cfg sent)
+                            && (negb (opt_hidv_eqb (own_entry cfg m) (own_entry cfg sent)) || blob_eqb judged (miner_blob m n x))
+                        | MBad => false
                         end);
                     (5, r =? mv_addr v)]
               | _ => 0
@@ -91,17 +151,21 @@ Definition prop_code (cfg : config) (vs : list (N * mview)) (e : event) (g : gob
   end.
 
 Definition gobs_outcome (g : gobs) : outcome :=
-  match g with GO o _ => o | GRefusedByChain => ORejectedLowDiff (* any answer that leaves the view unchanged *) end.
+  match g with GO o _ => o | GRefusedByChain _ => ORejectedLowDiff (* any answer that leaves the view unchanged *) end.
 
-Fixpoint prop_steps (cfg : config) (vs : list (N * mview)) (l : list (event * gobs)) : N :=
+Definition pstate_step (ps : pstate) (e : event) (g : gobs) : pstate :=
+  mkps (view_step (ps_views ps) e (gobs_outcome g))
+       (match e with ETemplate tpl _ _ _ _ md => nset (ps_tdiff ps) tpl md | _ => ps_tdiff ps end).
+
+Fixpoint prop_steps (cfg : config) (ps : pstate) (l : list (event * gobs)) : N :=
   match l with
   | [] => 0
   | (e, g) :: r =>
-      let c := prop_code cfg vs e g in
-      if c =? 0 then prop_steps cfg (view_step vs e (gobs_outcome g)) r else c
+      let c := prop_code cfg ps e g in
+      if c =? 0 then prop_steps cfg (pstate_step ps e g) r else c
   end.
 
-Definition c15_prop (cfg : config) (c : c15_case) : N := prop_steps cfg [] (cs_steps c).
+Definition c15_prop (cfg : config) (c : c15_case) : N := prop_steps cfg (mkps [] []) (cs_steps c).
 
 Definition c15_bad_corr cfg l := bad_indices (c15_corr cfg) l 0.
 Definition c15_bad_prop cfg l := bad_codes (c15_prop cfg) l 0.
